@@ -188,6 +188,16 @@ func runC01(env *core.Env) {
 	add("2-claimers+compact/S_A", f.SA, claimReq("a1"), claimReq("a2"), core.R("", "--json", "compact"))
 	add("claimer+compact/S_A-legacy-file", legacyNamed(f.SA), claimReq("a1"), core.R("", "--json", "compact"))
 	add("2-claimers+compact/S_A-legacy-file", legacyNamed(f.SA), claimReq("a1"), claimReq("a2"), core.R("", "--json", "compact"))
+	add("claimer+init/S_A-legacy-file", legacyNamed(f.SA), claimReq("a1"), core.R("", "--json", "init"))
+	{
+		// one ready task whose creation is stamped ahead of this machine's clock (created on a host with a fast clock):
+		// the claim that takes it is stamped earlier than the task's own creation. Two claimers and a compact.
+		l := newSynLog()
+		l.t = l.t.AddDate(70, 0, 0)
+		l.Create(SynItem{ID: core.IDFor(9801), Title: "from the future"})
+		ahead := core.Store{".ergo/plans.jsonl": l.Bytes(), ".ergo/lock": nil}
+		add("2-claimers+compact/S_created-ahead-of-the-clock", ahead, claimReq("a1"), claimReq("a2"), core.R("", "--json", "compact"))
+	}
 	if env.Thorough() {
 		add("4-claimers/S_A", f.SA, claimReq("a1"), claimReq("a2"), claimReq("a3"), claimReq("a4"))
 		add("3-claimers/S_one", f.SOne, claimReq("a1"), claimReq("a2"), claimReq("a3"))
